@@ -346,6 +346,9 @@ def expand_world(rng) -> World:
                 w.ssrels.append(['e:2', 'e:2', r[2], r[3], 'e:2', r[5], r[6], r[7]])
         m = w.add_lexicon('m', '1', lang='de', requires=rng.choice([['e:2'], ['e:2', 'e:1'], ['e:9']]))
         fill_lexicon(w, m, rng, rng.randint(2, 3), 1, ilis)
+    if rng.random() < 0.4:
+        # the dependent lexicon is installed BEFORE the lexicons it requires
+        w.lex.sort(key=lambda l: l[0] != 'l:1')
     return w
 
 
